@@ -323,6 +323,6 @@ static rc::Gen<BigArr> genBigArr()
 
 static void register_properties()
 {
-  pbt::property<BigArr>("actual_big_mmap", 3000, genBigArr(), actual_big_mmap);
+  pbt::property<BigArr>("actual_big_mmap", 8000, genBigArr(), actual_big_mmap);
 }
 PBT_MAIN("C17_bigmem")
